@@ -94,6 +94,15 @@ class Vec(object):
         raise CheckerError('vector attribute %s needs a contract' % name)
 
 
+class NullableVec(Vec):
+    """havocked value of a variable that was None before the loop and is assigned in the body: it is either None or some
+    array object about whose aliasing nothing is known"""
+    def __init__(self, term, isnone):
+        Vec.__init__(self, term)
+        self.isnone = isnone            # Cond atom
+        self.maybe_held = True
+
+
 def _t(term):
     if isinstance(term, tuple):
         return '(' + ' '.join(_t(x) for x in term) + ')'
@@ -185,24 +194,39 @@ def havoc_value(name, v, tag):
             return integer('%s%s' % (name, tag))
         return real('%s%s' % (name, tag))
     if isinstance(v, Vec):
-        return Vec(('var', '%s%s' % (name, tag)))
+        nv = Vec(('var', '%s%s' % (name, tag)))
+        nv.maybe_held = True       # unless the loop invariant declares the variable owned (checked at the back edge)
+        return nv
     if isinstance(v, Opaque):
         return Opaque(v.kind, havoc='%s%s' % (name, tag))
     if v is None:
-        return None
+        return NullableVec(('var', '%s%s' % (name, tag)), Cond('atom', '%s_is_None%s' % (name, tag)))
     raise CheckerError('cannot havoc %s of type %s' % (name, type(v).__name__))
 
 
 class InvariantWhile(object):
-    def __init__(self, name, invariant=None, variant=None, ghosts=(), sorts=None):
+    def __init__(self, name, invariant=None, variant=None, ghosts=(), sorts=None, owned=()):
         self.name = name
         self.invariant = invariant or (lambda interp, fr: [])
         self.variant = variant           # callable(interp, fr) -> (P expression, P minimal decrease, P lower bound) or None
         self.ghosts = ghosts             # GhostList objects summarised by this loop
         self.count = 0
         self.sorts = sorts or {}
+        self.owned = owned             # names of array variables that must not alias an object held by a ghost list
+
+    def _assert_owned(self, interp, fr, phase):
+        held = {ev[2] for ev in interp.path.log if ev[0] == 'append'}
+        for g in self.ghosts:
+            if g.last is not None and hasattr(g.last, 'oid'):
+                held.add(g.last.oid)
+        for n in self.owned:
+            v = fr.l.get(n)
+            if hasattr(v, 'oid'):
+                ok = v.oid not in held and not getattr(v, 'maybe_held', False)
+                interp.path.obligations.append(('syntactic', '%s/%s/%s-does-not-alias-a-reported-state' % (self.name, phase, n), ok, []))
 
     def _assert(self, interp, fr, phase):
+        self._assert_owned(interp, fr, phase)
         for label, goal in self.invariant(interp, fr):
             interp.path.obligations.append(('assert', '%s/%s/%s' % (self.name, phase, label), goal, list(interp.path.conds)))
 
@@ -215,6 +239,8 @@ class InvariantWhile(object):
             if n in fr.l:
                 proto = self.sorts.get(n, fr.l[n])
                 fr.l[n] = havoc_value(n, proto, tag)
+                if n in self.owned and hasattr(fr.l[n], 'maybe_held'):
+                    fr.l[n].maybe_held = False
         for g in self.ghosts:
             g.havoc(interp, tag)
         for label, goal in self.invariant(interp, fr):
